@@ -265,6 +265,52 @@ def t_trade_record(side):
     return t
 
 
+def t_resubmit(status):
+    """Order.resubmit (live-mode API, no caller in jesse/): only a QUEUED order may become ACTIVE again; an order that is final
+    (or already active) is refused and its record stays as it is - an order never leaves its terminal status"""
+    def t(h):
+        trace = world(h)
+        ov = h.ctx.cfg.overrides
+        ov['jesse.helpers.generate_unique_id'] = lambda i, a, k: 'new-id'
+        o = common.mk_order(h, side='buy', type='LIMIT', qty=h.real('q', 0), price=h.real('p', 0), symbol='BTC-USDT', exchange='Sandbox',
+                            reduce_only=False, status=status)
+        before = dict(o.f)
+        h.cover(f'resubmit.{status}.pre')
+        out = h.method_outcome(o, 'resubmit')
+        same = all(o.f.get(k) is v or o.f.get(k) == v for k, v in before.items()) and set(o.f) == set(before)
+        h.prove((not out.ok) and same and [n for n, _ in trace] == [],
+                'resubmit.final-or-active-order.is-refused-and-stays-unchanged', {'raised': out.exc, 'status': status})
+    return t
+
+
+def t_trade_record_partial(side):
+    """a partial fill notification followed by the final execution: the order is listed once in its trade (each call adds its row)"""
+    def t(h):
+        ov = h.ctx.cfg.overrides
+        ov['jesse.helpers.generate_unique_id'] = lambda i, a, k: 'trade-id'
+        ct = h.repo.find(CT)
+        state = h.interp.instantiate(ct, [], {})
+        q, p, fq = h.real('q'), h.real('p', 0), h.real('fq')
+        h.assume(ops.lnot(ops.equal(q, 0)))
+        o = common.mk_order(h, side=side, type='LIMIT', qty=q, price=p, symbol='BTC-USDT', exchange='Sandbox', reduce_only=False,
+                            status='PARTIALLY FILLED')
+        o.f['filled_qty'] = fq
+        out = h.method_outcome(state, 'add_executed_order', o)
+        h.prove(out.ok, f'trade-record.partial.{side}.no-exception', {'raised': out.exc})
+        if not out.ok:
+            return
+        o.f['status'] = 'EXECUTED'
+        out = h.method_outcome(state, 'add_executed_order', o)
+        h.prove(out.ok, f'trade-record.partial.{side}.no-exception', {'raised': out.exc})
+        if not out.ok:
+            return
+        t = state.f['tempt_trades'].get('Sandbox-BTC-USDT')
+        ok = isinstance(t, Obj) and [x for x in t.f['orders']] == [o]
+        h.prove(ok, f'trade-record.partial.{side}.order-listed-once-after-partial-fill-and-execution',
+                {'orders_listed': len(t.f['orders']) if isinstance(t, Obj) else None})
+    return t
+
+
 def tasks(tier):
     x = dict(spec_mod=SPEC)
     ov = stubs.backtest_mode()
@@ -283,4 +329,7 @@ def tasks(tier):
     ts.append(Task('market-order', t_market_order_queued, extra=x, overrides=dict(ov)))
     for side in ('buy', 'sell'):
         ts.append(Task(f'trade-record.{side}', t_trade_record(side), extra=x, overrides=dict(ov)))
+        ts.append(Task(f'trade-record.partial.{side}', t_trade_record_partial(side), extra=x, overrides=dict(ov)))
+    for status in ('ACTIVE', 'EXECUTED', 'CANCELED'):
+        ts.append(Task(f'resubmit.{status}', t_resubmit(status), extra=x, overrides=dict(ov)))
     return ts
